@@ -83,13 +83,18 @@ package mice
 //@   requires enc == Draft02Encoding || enc == Draft03Encoding
 //@   ensures[write-failure-surfaces] failed(w) ==> err != nil
 //@   ensures accepted(w) >= old(accepted(w)) && accepted(w) - wrapped(w) == old(accepted(w) - wrapped(w))
-//@   assigns accepted(w), failed(w), content(w), wrapped(w)
+//@   ensures[stream-length] err == nil && len(buf) > 0 ==> exists n int :: (n - 1) * recordSize < len(buf) && len(buf) <= n * recordSize && accepted(w) == old(accepted(w)) + 8 + len(buf) + 32 * (n - 1)
+//@   ensures[empty-draft03-writes-nothing] err == nil && len(buf) == 0 && enc == Draft03Encoding ==> accepted(w) == old(accepted(w))
+//@   assigns accepted(w), failed(w), content(w), wrapped(w), sdata(w) if typeis(w, *bytes.Buffer)
 //@   loop 0:
 //@     invariant 0 <= i && i <= numRecords && len(proofs) == numRecords && numRecords >= 1 && fresh(proofs)
 //@     invariant (numRecords - 1) * recordSize <= len(buf) && len(buf) <= numRecords * recordSize
 //@     invariant forall k int :: numRecords - i <= k && k < numRecords ==> len(proofs[k]) == 32
+//@     invariant !failed(w) && accepted(w) == old(accepted(w)) && wrapped(w) == old(wrapped(w))
 //@     decreases numRecords - i
 //@   loop 1:
 //@     invariant !failed(w) && len(proofs) == numRecords && numRecords >= 1
 //@     invariant (numRecords - 1) * recordSize <= len(buf) && len(buf) <= numRecords * recordSize
 //@     invariant accepted(w) >= old(accepted(w)) && accepted(w) - wrapped(w) == old(accepted(w) - wrapped(w))
+//@     invariant[written-so-far] -1 <= rangeindex && rangeindex < numRecords && accepted(w) == old(accepted(w)) + 8 + ((rangeindex + 1) * recordSize < len(buf) ? (rangeindex + 1) * recordSize : len(buf)) + 32 * (rangeindex >= 0 ? rangeindex : 0)
+//@     invariant forall k int :: 0 <= k && k < numRecords ==> len(proofs[k]) == 32
